@@ -105,7 +105,7 @@ Proof.
   repeat split; try assumption. exists h, tl. split; [reflexivity|exact Eh].
 Qed.
 
-(** the wrapper of an admitted group is the pool entry the property asks for *)
+(** the wrapper of an accepted group is the pool entry the property asks for *)
 Lemma head_entry : forall o h, wrap_consistent o h = true -> is_group_head o h = true -> same_entry o h = true.
 Proof.
   intros o h Hc Hh. unfold is_group_head in Hh. apply andb_true_iff in Hh as [Hi Hs].
@@ -386,7 +386,7 @@ Proof.
   - intro He. apply (expired_chk_next c true t D). rewrite He. reflexivity.
 Qed.
 
-(** the wrapper of an admitted, not forwarded group is the group's first transaction:
+(** the wrapper of an accepted, not forwarded group is the group's first transaction:
     same hash, same signature, hence (consistent facts) the same pool entry *)
 Lemma group_wrapper_is_head : forall c p s ms ok p', pipeline c p (STx s) = (R_OK, p') ->
   s_forward s = false -> s_shape s = Group ms ok ->
